@@ -5,6 +5,7 @@ use crate::view::{TooDeeView,TooDeeViewMut};
 use core::fmt;
 extern crate alloc;
 use alloc::vec::Vec;
+use alloc::string::String;
 use core::marker::PhantomData;
 use serde::ser::SerializeStruct;
 use crate::TooDeeOps;
@@ -38,8 +39,10 @@ impl<'de, T> Visitor<'de> for TooDeeVisitor<T>
         let mut num_cols = None;
         let mut num_rows = None;
         let mut data = None;
-        while let Some(key) = visitor.next_key::<&str>()? {
-            match key {
+        // Keys are requested as owned strings: only some deserializers (and only for keys without
+        // escape sequences) can lend a `&str`; readers and value trees cannot.
+        while let Some(key) = visitor.next_key::<String>()? {
+            match key.as_str() {
                 "num_cols" => {
                     if num_cols.is_some() {
                         return Err(de::Error::duplicate_field("num_cols"));
@@ -55,7 +58,7 @@ impl<'de, T> Visitor<'de> for TooDeeVisitor<T>
                 "data" => {
                     data = Some(visitor.next_value::<Vec<T>>()?)
                 },
-                &_ => return Err(de::Error::unknown_field(key, FIELDS)),
+                _ => return Err(de::Error::unknown_field(&key, FIELDS)),
             }
         }
         let num_cols = num_cols.ok_or_else(|| de::Error::missing_field("num_cols"))?;
